@@ -10,8 +10,10 @@ The code deviates in five classes, each with a kernel-checked witness below:
     NilAtCycle (DESIGN §7 #19), HasQuoted (#32), DupNames, Dangling, WrongComponent (round 3).
 Repaired (regression theorem below): RecContainer (F-C18-6, 0916db1).
 -/
-import KinModel.Lemmas.C18Dang
+import KinModel.Lemmas.C18Seq
 import KinModel.Gen.GenKinds
+import KinModel.Gen.GenFlow
+import KinModel.Gen3Flow
 namespace KinModel.Gen3
 
 /-- The executable oracle used by the driver is the specification: `acceptB` decides `Sat`. -/
@@ -116,6 +118,90 @@ theorem gen_sound_partial (Δ : Decls) (o : Opts) (fuel : Nat) (t : GoType) (s :
   exact encode_sound_partial Δ (typeName o) Γ (stripPtr t) s v' hΓ hinj (relS_mono hmono s _ hr) hv'
     (by unfold HasQuoted at hq ⊢; rwa [heredAll_strip]) (by unfold DupNames at hd ⊢; rwa [heredAll_strip]) hn
 
+/-! ### reuse: a sequence of `GenerateSchemaRef` calls on one `Generator` (state kept between the calls) -/
+
+/-- **The generator establishes the relation after any history of calls on the same generator** (all types, option
+sets, histories of any length): what `g.GenerateSchemaRef(t)` returns after `g.GenerateSchemaRef(p)` for every `p` of
+`pre` describes `t`, and every entry recorded for the export loop — by this call or an earlier one — describes the
+declared struct it is named after. Full statement: for every `pre`. The code deviates when an earlier ROOT call was for
+a pointer type (`RootPtrBefore`, finding F-C18-7, `witness_root_ptr_before`). -/
+theorem gen_rel_reuse_partial (Δ : Decls) (o : Opts) (fuel : Nat) (pre : List GoType) (t : GoType) (s : Sch) (σ : St)
+    (hg : genAfter Δ o fuel pre t = (.ok s, σ)) (ha : σ.anon = false) (hp : ¬ RootPtrBefore pre) :
+    RelS Δ (typeName o) (okσ σ) (stripPtr t) s ∧ ∀ e, e ∈ σ.refs → RefGood Δ o σ e := by
+  have hp' : rootPtrBeforeB pre = false := by
+    cases h : rootPtrBeforeB pre with | false => rfl | true => exact absurd h hp
+  have hi0 : Inv Δ o {} := ⟨fun _ _ h => (by cases h), fun _ h => (by cases h)⟩
+  unfold genAfter at hg
+  have ha1 : (genSeq Δ o fuel pre {}).anon = false := by
+    have hm := (gen_mono Δ o fuel).1 [] "_root" t (genSeq Δ o fuel pre {})
+    rw [hg] at hm
+    exact hm.2 ha
+  have hi := genSeq_inv Δ o fuel pre {} hp' hi0 ha1
+  have h := (gen_good Δ o fuel).1 [] "_root" t _ hi
+  rw [hg] at h
+  obtain ⟨h1, _, h3⟩ := h ha
+  exact ⟨h3 s rfl, h1⟩
+
+/-- **Soundness after any history of calls on the same generator (partial).** The statement of `gen_sound_partial`
+for the schema returned by the LAST of a sequence of `GenerateSchemaRef` calls on one generator and any component map
+the export loop can produce from the accumulated state — outside the five classes of `gen_sound_partial` and
+`RootPtrBefore`. -/
+theorem gen_sound_reuse_partial (Δ : Decls) (o : Opts) (fuel : Nat) (pre : List GoType) (t : GoType) (s : Sch) (σ : St)
+    (Γ : Comps) (v : GoVal)
+    (hg : genAfter Δ o fuel pre t = (.ok s, σ)) (hp : ¬ RootPtrBefore pre) (hinj : TnInj Δ (typeName o))
+    (hl : LoopResult σ Γ) (hdg : ¬ Dangling σ) (hw : ¬ WrongComponent o σ)
+    (hv : HasType Δ v t) (hnn : encode Δ t v ≠ .null)
+    (hq : ¬ HasQuoted Δ t) (hd : ¬ DupNames Δ t) (hn : ¬ NilAtCycle Γ s (encode Δ t v)) :
+    Sat Γ s (encode Δ t v) := by
+  have hw' : wrongCandB o σ = false := by
+    cases h : wrongCandB o σ with | false => rfl | true => exact absurd h hw
+  have ha : σ.anon = false := by
+    simp only [wrongCandB, Bool.or_eq_false_iff] at hw'; exact hw'.1
+  have hd' : danglingB σ = false := by
+    cases h : danglingB σ with | false => rfl | true => exact absurd h hdg
+  obtain ⟨hr, hc⟩ := gen_rel_reuse_partial Δ o fuel pre t s σ hg ha hp
+  have hco := complete_of_loop hl hd'
+  have hmono := okΓ_of_complete hco
+  obtain ⟨v', hv', he⟩ := strip_value Δ v t hv hnn
+  have hΓ : CompsOK Δ (typeName o) Γ := by
+    intro m s' hlk
+    obtain ⟨hcm, hcand⟩ := hl.1 m s' hlk
+    obtain ⟨hp, n, hmem⟩ := mem_candidatesFor hcand
+    obtain ⟨hne, htn⟩ := wrong_false hw' hmem hcm hp
+    have hrel := (hc _ hmem).1 hne
+    exact ⟨n, htn, declared_of_props hrel hp, relS_mono hmono s' _ hrel⟩
+  rw [← he] at hn ⊢
+  exact encode_sound_partial Δ (typeName o) Γ (stripPtr t) s v' hΓ hinj (relS_mono hmono s _ hr) hv'
+    (by unfold HasQuoted at hq ⊢; rwa [heredAll_strip]) (by unfold DupNames at hd ⊢; rwa [heredAll_strip]) hn
+
+/-- … and the references of the last schema and of every stored component resolve in that map. -/
+theorem gen_refs_resolve_reuse_partial (Δ : Decls) (o : Opts) (fuel : Nat) (pre : List GoType) (t : GoType) (s : Sch)
+    (σ : St) (Γ : Comps) (hg : genAfter Δ o fuel pre t = (.ok s, σ)) (hp : ¬ RootPtrBefore pre) (ha : σ.anon = false)
+    (hl : LoopResult σ Γ) (hd : ¬ Dangling σ) : Resolves Γ s := by
+  obtain ⟨hr, hc⟩ := gen_rel_reuse_partial Δ o fuel pre t s σ hg ha hp
+  have hd' : danglingB σ = false := by
+    cases h : danglingB σ with | false => rfl | true => exact absurd h hd
+  have hco := complete_of_loop hl hd'
+  have hres : ∀ n, okσ σ n → (resolve Γ (.ref n)).isSome = true := by
+    intro n hn
+    obtain ⟨nd, hnd⟩ := okΓ_of_complete hco n hn
+    simp [hnd]
+  refine ⟨fun n hn => hres n (relS_refNames _ _ hr n hn), ?_⟩
+  intro k c hk n hn
+  obtain ⟨_, g, hmem⟩ := mem_candidatesFor (hl.1 k c hk).2
+  exact hres n ((hc _ hmem).2 n hn)
+
+/-- **Finite after any history, full strength**: on a generator that was used before — for any types, pointer types
+included, whatever those calls returned — `GenerateSchemaRef(t)` terminates within the bound of `gen_finite` (the state
+never lengthens a run: a hit in the type table returns at once). -/
+theorem gen_finite_reuse (Δ : Decls) (o : Opts) (pre : List GoType) (t : GoType) (fuel : Nat) (h : enoughFuel Δ t ≤ fuel) :
+    (genAfter Δ o fuel pre t).1 ≠ .nofuel := by
+  unfold genAfter
+  exact gen_enough_fuel_state Δ o t fuel _ h
+
+/-- a history of no calls is the single call of `gen_sound_partial` -/
+theorem genAfter_nil (Δ : Decls) (o : Opts) (fuel : Nat) (t : GoType) : genAfter Δ o fuel [] t = genRoot Δ o fuel t := rfl
+
 /-- **No dangling component under the default option set** (no type-name generator, no component export, no
 customizer; UseAllExportedFields and ThrowErrorOnCycle arbitrary): every name registered by cycle cutting is the name
 of a declared struct that is still on the parent chain (the chain below a container continues with its element type,
@@ -200,6 +286,41 @@ theorem genTags_is_model : Gen.genTagKeys.map (·.2.1) = modelTagKeys ∧ Gen.ge
 
 /-- the option set of the generator is the one in the model (`Opts`) -/
 theorem genOpts_is_model : Gen.genOptFields = modelOptFields := by decide
+
+/-! ### the statement skeleton of the generator functions (regenerated by every run: table GenFlow) -/
+
+/-- the walker could read every statement of the nine functions (and found each of them exactly once) -/
+theorem genFlow_read : Gen.genFlowUnrecognised = [] := by decide
+
+set_option maxRecDepth 20000
+
+/-- **The code the model transcribes is the code of the tree under test.** Every condition, switch tag, case list,
+loop header, return expression and assignment of `NewSchemaRefForValue` (both), `NewGenerator`, `GenerateSchemaRef`,
+`generateSchemaRefFor`, `getStructField`, `generateWithoutSaving`, `generateTypeName` and `generateCycleSchemaRef`, in
+source order, is the one `Gen3.lean` was written against (`modelFlow_…`, one definition per function naming the model
+definitions that transcribe it): e.g. the byte-slice test looks at the element's KIND (`isU8`), the cycle reference is
+named by `generateTypeName` (`cycleName`), `isRoot` is `cap(parents) == 0`, the early `$ref` return is guarded by
+ExportComponentSchemas. One theorem per function so that a broken obligation names the function that changed. -/
+theorem genFlow_is_model_entry :
+    Gen.genFlow_NewSchemaRefForValue = modelFlow_NewSchemaRefForValue ∧ Gen.genFlow_NewGenerator = modelFlow_NewGenerator ∧
+    Gen.genFlow_Generator_GenerateSchemaRef = modelFlow_Generator_GenerateSchemaRef := by decide
+theorem genFlow_is_model_export_loop :
+    Gen.genFlow_Generator_NewSchemaRefForValue = modelFlow_Generator_NewSchemaRefForValue := by decide
+theorem genFlow_is_model_schemaRefFor :
+    Gen.genFlow_Generator_generateSchemaRefFor = modelFlow_Generator_generateSchemaRefFor := by decide
+theorem genFlow_is_model_getStructField : Gen.genFlow_getStructField = modelFlow_getStructField := by decide
+theorem genFlow_is_model_withoutSaving :
+    Gen.genFlow_Generator_generateWithoutSaving = modelFlow_Generator_generateWithoutSaving := by decide
+theorem genFlow_is_model_typeName :
+    Gen.genFlow_Generator_generateTypeName = modelFlow_Generator_generateTypeName := by decide
+theorem genFlow_is_model_cycleRef :
+    Gen.genFlow_Generator_generateCycleSchemaRef = modelFlow_Generator_generateCycleSchemaRef := by decide
+/-- … hence the whole table is the transcript -/
+theorem genFlow_is_model : Gen.genFlow = modelFlow := by
+  unfold Gen.genFlow modelFlow
+  rw [genFlow_is_model_entry.1, genFlow_is_model_entry.2.1, genFlow_is_model_entry.2.2, genFlow_is_model_export_loop,
+    genFlow_is_model_schemaRefFor, genFlow_is_model_getStructField, genFlow_is_model_withoutSaving,
+    genFlow_is_model_typeName, genFlow_is_model_cycleRef]
 
 /-- The integer bounds table admits every value of the kind (all ten kinds, extremes included). -/
 theorem int_bounds_admit (k : IntKind) (n : Int) (h : inRange k n = true) :
@@ -382,6 +503,24 @@ theorem regression_rec_container :
   obtain ⟨k, rfl⟩ : ∃ k, fuel = k + 3 := ⟨fuel - 3, by omega⟩
   rfl
 
+/-- Finding F-C18-7 (reuse of a generator): `type T struct { N int `json:"n"` }`, `type H struct { F *T `json:"f"` }`.
+`g.GenerateSchemaRef(*T)` stores the ROOT schema — not nullable — in the type table under `*T`; a later
+`g.GenerateSchemaRef(H)` on the same generator finds it for field `F`: `H{}` encodes `{"f":null}`, which is rejected.
+On a fresh generator the same type gets a nullable property and the value is accepted. -/
+def ΔTH : Decls := [("T", [(tagF "N" "n", .int .int)]), ("H", [(tagF "F" "f", .ptr (.named "T"))])]
+def sT (nl : Bool) : Sch := .node "object" nl "" none none none [("n", leaf "integer" false "" none none)] none false
+def sH (nl : Bool) : Sch := .node "object" false "" none none none [("f", sT nl)] none false
+theorem witness_root_ptr_before :
+    (genAfter ΔTH o0 10 [.ptr (.named "T")] (.named "H")).1 = .ok (sH false) ∧
+    (genAfter ΔTH o0 10 [] (.named "H")).1 = .ok (sH true) ∧
+    RootPtrBefore [.ptr (.named "T")] ∧
+    HasType ΔTH (.struct [.nil]) (.named "H") ∧
+    encode ΔTH (.named "H") (.struct [.nil]) = .obj [("f", .null)] ∧
+    ¬ NilAtCycle [] (sH false) (.obj [("f", .null)]) ∧
+    acceptB [] (sH false) (.obj [("f", .null)]) = false ∧
+    acceptB [] (sH true) (.obj [("f", .null)]) = true := by
+  refine ⟨by rfl, by rfl, by decide, by decide, by rfl, by decide, by decide, by decide⟩
+
 /-! ### non-vacuity -/
 
 /-- `type T struct { Kids []*T `json:"kids"`; N int8 `json:"n"` }` with `T{Kids: {&T{Kids: {}, N: -128}}, N: 127}`:
@@ -421,5 +560,16 @@ example : (genRoot [] o0 10 tOctets).1 = .ok (leaf "string" false "byte" none no
     HasType [] (.bytes "AQID") tOctets ∧ ¬ HasType [] (.slice [.i 1]) tOctets ∧
     acceptB [] (leaf "string" false "byte" none none) (encode [] tOctets (.bytes "AQID")) = true := by
   refine ⟨by rfl, by rfl, by decide, by decide, by decide⟩
+
+/-- reuse, outside `RootPtrBefore`: after `g.GenerateSchemaRef(T)` (by value) and `g.GenerateSchemaRef(Kids-T)` the
+schema for `H` on the same generator has a nullable `f` and accepts `{"f":null}`; the type table answers the second
+request for `T` -/
+example : ¬ RootPtrBefore [.named "T", .named "T"] ∧
+    (genAfter ΔTH o0 10 [.named "T", .named "T"] (.named "H")).1 = .ok (sH true) ∧
+    (genAfter ΔTH o0 10 [.named "T", .named "T"] (.named "H")).2.trace.contains "cache.hit" = true ∧
+    ¬ Dangling (genAfter ΔTH o0 10 [.named "T", .named "T"] (.named "H")).2 ∧
+    ¬ WrongComponent o0 (genAfter ΔTH o0 10 [.named "T", .named "T"] (.named "H")).2 ∧
+    acceptB [] (sH true) (encode ΔTH (.named "H") (.struct [.nil])) = true := by
+  refine ⟨by decide, by rfl, by decide, by decide, by decide, by decide⟩
 
 end KinModel.Gen3
